@@ -117,6 +117,8 @@ class Sym(object):
 
     # -- arithmetic ------------------------------------------------------------
     def _bin(self, other, f, swap=False):
+        if isinstance(other, complex) or getattr(other, '_pyvc_complex', False) or type(other).__name__.startswith('complex'):
+            return NotImplemented          # complex arithmetic is CSym's (its reflected operators take over)
         o = _num(other)
         if o is None:
             return NotImplemented
